@@ -384,10 +384,11 @@ fn run_case(ctx: &Ctx, c: &Case) {
 fn conflict_cases(ctx: &Ctx) -> u64 {
     let h = |v: AutosarVersion| format!("<?xml version=\"1.0\" encoding=\"utf-8\"?><AUTOSAR {}>", header_attrs(v));
     let pk = |inner: &str| format!("<AR-PACKAGES><AR-PACKAGE><SHORT-NAME>p</SHORT-NAME>{inner}</AR-PACKAGE></AR-PACKAGES></AUTOSAR>");
-    let base = format!("{}{}", h(V50), pk("<ELEMENTS><SYSTEM><SHORT-NAME>s</SHORT-NAME><SYSTEM-VERSION>1.0.0</SYSTEM-VERSION></SYSTEM><CAN-CLUSTER><SHORT-NAME>c</SHORT-NAME></CAN-CLUSTER></ELEMENTS>"));
+    let base = format!("{}{}", h(V50), pk("<ELEMENTS><SYSTEM><SHORT-NAME>s</SHORT-NAME><SYSTEM-VERSION>1.0.0</SYSTEM-VERSION></SYSTEM><CAN-CLUSTER><SHORT-NAME>c</SHORT-NAME></CAN-CLUSTER><SYSTEM-TIMING><SHORT-NAME>t</SHORT-NAME><TIMING-RESOURCE><SHORT-NAME>r1</SHORT-NAME></TIMING-RESOURCE></SYSTEM-TIMING></ELEMENTS>"));
     let conflicts = [
         ("same-path-different-kind", format!("{}{}", h(V50), pk("<ELEMENTS><SYSTEM><SHORT-NAME>c</SHORT-NAME></SYSTEM></ELEMENTS>"))),
         ("divergence-below-non-splittable", format!("{}{}", h(V50), pk("<ELEMENTS><SYSTEM><SHORT-NAME>s</SHORT-NAME><SYSTEM-VERSION>2.0.0</SYSTEM-VERSION><PNC-VECTOR-LENGTH>3</PNC-VECTOR-LENGTH></SYSTEM></ELEMENTS>"))),
+        ("new-package-imported-before-a-divergence-below-non-splittable", format!("{}<AR-PACKAGES><AR-PACKAGE><SHORT-NAME>p</SHORT-NAME><ELEMENTS><CAN-CLUSTER><SHORT-NAME>b0</SHORT-NAME></CAN-CLUSTER><SYSTEM-TIMING><SHORT-NAME>t</SHORT-NAME><TIMING-RESOURCE><SHORT-NAME>r2</SHORT-NAME></TIMING-RESOURCE></SYSTEM-TIMING></ELEMENTS></AR-PACKAGE><AR-PACKAGE><SHORT-NAME>z</SHORT-NAME><ELEMENTS><SYSTEM><SHORT-NAME>late</SHORT-NAME></SYSTEM></ELEMENTS></AR-PACKAGE></AR-PACKAGES></AUTOSAR>", h(V50))),
         ("differing-text", format!("{}{}", h(V50), pk("<ELEMENTS><SYSTEM><SHORT-NAME>s</SHORT-NAME><SYSTEM-VERSION>2.0.0</SYSTEM-VERSION></SYSTEM></ELEMENTS>"))),
     ];
     let mut n = 0;
@@ -404,6 +405,7 @@ fn conflict_cases(ctx: &Ctx) -> u64 {
             let before = crate::engine::histx::canon(&m).whole();
             let second = guarded(|| m.load_buffer(texts[order[1]].as_bytes(), "b.arxml", true).map(|_| ()));
             let w = json!({"kind": "merge-conflict", "case": label, "first": texts[order[0]], "second": texts[order[1]]});
+            ctx.outcome(format!("conflict:{label}:{}", match &second { Err(_) => "panic", Ok(Ok(())) => "accepted", Ok(Err(_)) => "rejected" }));
             match second {
                 Err(msg) => ctx.violation(format!("conflict|panic|{label}"), json!({"w": w, "msg": msg})),
                 Ok(Ok(())) => {
